@@ -10,7 +10,7 @@ from . import common
 
 ID = 'C13'
 LEVEL = 'exploration'
-RUNS = {'quick': 640}
+RUNS = {'quick': 2400}
 BUDGET_S = {'thorough': 600}
 RULE = ('one evaluation = one byte stream (simulated endpoints + program chatter, with/without final newline) played through '
         '(a) -l FILE, (b) -p stdin, (c) -r PROG ARGS where subprocess.run is a simulated child writing the stream to a simulated '
